@@ -124,12 +124,23 @@ def compile_ast(ast: Dict[str, Any]) -> List[List[Dict[str, Any]]]:
                 p.emit("set", Q(0), s["dst"])
                 p.emit("qalloc", Q(0))
                 p.emit("init", Q(0))
-                p.emit("set", R(4), s["src"])
-                p.emit("load", Q(0), 1, R(4))
-                p.emit("set", R(4), s["dst"])
-                p.emit("load", Q(1), 1, R(4))
-                p.emit("mov", Q(0), Q(1))
-                p.emit("qfree", Q(0))
+                if s.get("rr"):
+                    # as the SDK moves a fresh pair into memory: the operands of the move are R registers (same indices as
+                    # Q registers that were `set` earlier in the text)
+                    p.emit("set", R(4), s["src"])
+                    p.emit("load", R(0), 1, R(4))
+                    p.emit("set", R(4), s["dst"])
+                    p.emit("load", R(1), 1, R(4))
+                    p.emit("mov", R(0), R(1))
+                    p.emit("set", Q(0), s["src"])
+                    p.emit("qfree", Q(0))
+                else:
+                    p.emit("set", R(4), s["src"])
+                    p.emit("load", Q(0), 1, R(4))
+                    p.emit("set", R(4), s["dst"])
+                    p.emit("load", Q(1), 1, R(4))
+                    p.emit("mov", Q(0), Q(1))
+                    p.emit("qfree", Q(0))
             elif k == "retry":                     # repeat until the outcome is 0: the label is the first line of the body
                 top = p.label()
                 p.place(top)
@@ -372,6 +383,9 @@ def directed() -> List[Dict[str, Any]]:
                                                 {"s": "g2", "g": "cnot", "a": 2, "b": 0, "ra": 0, "rb": 3}], "ret": True})
     # relocation with both registers read from the array of qubit ids
     D.append({"nq": 2, "alloc": [0], "body": [{"s": "g1", "g": "h", "q": 0}, {"s": "lmov", "src": 0, "dst": 1}, {"s": "g1", "g": "t", "q": 1}], "ret": True})
+    # ... with R registers as operands of the move, after gates that left other qubit ids in Q0 / Q1
+    D.append({"nq": 3, "alloc": [0, 1], "body": [{"s": "g2", "g": "cnot", "a": 0, "b": 1}, {"s": "lmov", "src": 0, "dst": 2, "rr": True}, {"s": "g1", "g": "t", "q": 2}], "ret": True})
+    D.append({"nq": 4, "alloc": [0, 1, 2], "body": [{"s": "g1", "g": "h", "q": 0}, {"s": "g2", "g": "cphase", "a": 1, "b": 2}, {"s": "lmov", "src": 0, "dst": 3, "rr": True}, {"s": "g1", "g": "h", "q": 3}], "ret": True})
     # nested conditionals that end on the same label
     D.append({**c_c, "body": [{"s": "if", "on": "arr", "slot": 0, "cmp": "eq", "v": 0, "body": [{"s": "g2", "g": "cnot", "a": 1, "b": 2}, {"s": "if", "on": "arr", "slot": 1, "cmp": "eq", "v": 1, "body": [{"s": "g1", "g": "x", "q": 1}]}]}, {"s": "g1", "g": "h", "q": 2}], "ret": True})
     D.append({**c_c, "body": [{"s": "if", "on": "arr", "slot": 0, "cmp": "eq", "v": 1, "body": [{"s": "g2", "g": "cnot", "a": 1, "b": 2}, {"s": "if", "on": "arr", "slot": 1, "cmp": "eq", "v": 0, "body": [{"s": "g1", "g": "x", "q": 1}]}]}, {"s": "g1", "g": "h", "q": 2}], "ret": True})
